@@ -16,8 +16,10 @@
 struct scanner_s *g_scanner;                 /* ghost: the scanner of the parse under verification */
 UChar g_tokbuf[TOKN + 2];                    /* ghost: where the token source puts the current token */
 unsigned g_store_calls;                      /* storage operations issued */
+unsigned g_item_cb_calls, g_value_frees; int g_item_cb_answer;   /* handle_item monitor (set by the harness stub) */
 
 #define SKIPPING (g_scanner->skip_depth > 0)
+#define STORE_REQ(c) ((c) != NULL && !SKIPPING)
 #define SC_FIELDS(s) (s)->ttype, (s)->text_start, (s)->tvalue_start, (s)->tvalue_length, (s)->next_char, (s)->line, (s)->column
 
 /* token source: any token type; the token text lies in g_tokbuf; skip_depth is not its business */
@@ -37,10 +39,39 @@ __CPROVER_ensures(scanner->line >= 1)
 __CPROVER_ensures((RET == CIF_OK && scanner->ttype == FRAME_HEAD) ==> scanner->skip_depth < 999990)
 ;
 
-/* sub-productions: balanced with respect to skip_depth; an item is stored (name given) only outside a skip */
+/* values (lists and tables recurse inside): a token-stream consumer that neither looks at skip_depth nor stores anything */
+static int parse_value(struct scanner_s *scanner, cif_value_tp **valuep)
+__CPROVER_requires(scanner == g_scanner && __CPROVER_rw_ok(valuep, sizeof(*valuep)))
+__CPROVER_assigns(SC_FIELDS(scanner), __CPROVER_object_whole(g_tokbuf), *valuep)
+__CPROVER_ensures(RET == CIF_OK ==> *valuep != NULL)
+__CPROVER_ensures(__CPROVER_pointer_in_range_dfcc(&g_tokbuf[0], scanner->tvalue_start, &g_tokbuf[TOKN + 1]) && __CPROVER_pointer_in_range_dfcc(&g_tokbuf[0], scanner->text_start, &g_tokbuf[TOKN + 1])
+        && __CPROVER_pointer_in_range_dfcc(&g_tokbuf[0], scanner->next_char, &g_tokbuf[TOKN + 1]))
+__CPROVER_ensures(scanner->line >= 1)
+;
+int cif_container_set_value(cif_container_tp *container, const UChar *item_name, cif_value_tp *val)
+__CPROVER_requires(STORE_REQ(container) && item_name != NULL && g_item_cb_answer == CIF_TRAVERSE_CONTINUE)
+__CPROVER_assigns(g_store_calls)
+__CPROVER_ensures(g_store_calls == OLD(g_store_calls) + 1)
+;
+void cif_value_free(cif_value_tp *value)
+__CPROVER_requires(1)
+__CPROVER_assigns(g_value_frees)
+__CPROVER_ensures(g_value_frees == OLD(g_value_frees) + 1)
+;
+int cif_value_create(cif_kind_tp kind, cif_value_tp **value)
+__CPROVER_requires(__CPROVER_rw_ok(value, sizeof(*value)))
+__CPROVER_assigns(*value)
+__CPROVER_ensures((RET == CIF_OK ==> *value != NULL) && (RET != CIF_OK ==> *value == OLD(*value)))
+;
+
+/* an item: balanced with respect to skip_depth when entered while skipping; entered at depth 0 it leaves 0, or 1 when its handler asked to
+ * skip the remaining siblings; the handler is consulted and the value stored only for a named item outside a skip */
 static int parse_item(struct scanner_s *scanner, cif_container_tp *container, UChar *name)
-__CPROVER_requires(scanner == g_scanner && (name == NULL || !SKIPPING))
-__CPROVER_assigns(SC_FIELDS(scanner), __CPROVER_object_whole(g_tokbuf), g_store_calls)
+__CPROVER_requires(scanner == g_scanner && __CPROVER_rw_ok(scanner, sizeof(*scanner)) && (name == NULL || !SKIPPING) && scanner->skip_depth >= 0 && scanner->skip_depth < 999999)
+__CPROVER_requires(scanner->handler != NULL && __CPROVER_r_ok(scanner->handler, sizeof(cif_handler_tp)) && scanner->error_callback != NULL && scanner->line >= 1)
+__CPROVER_assigns(SC_FIELDS(scanner), scanner->skip_depth, __CPROVER_object_whole(g_tokbuf), g_store_calls, g_item_cb_calls, g_item_cb_answer, g_value_frees)
+__CPROVER_ensures(OLD(scanner->skip_depth) > 0 ==> (scanner->skip_depth == OLD(scanner->skip_depth) && g_store_calls == OLD(g_store_calls)))
+__CPROVER_ensures(OLD(scanner->skip_depth) == 0 ==> (scanner->skip_depth == 0 || (scanner->skip_depth == 1 && name != NULL && container != NULL)))
 __CPROVER_ensures((name == NULL || container == NULL) ==> g_store_calls == OLD(g_store_calls))
 __CPROVER_ensures(__CPROVER_pointer_in_range_dfcc(&g_tokbuf[0], scanner->tvalue_start, &g_tokbuf[TOKN + 1]) && __CPROVER_pointer_in_range_dfcc(&g_tokbuf[0], scanner->text_start, &g_tokbuf[TOKN + 1])
         && __CPROVER_pointer_in_range_dfcc(&g_tokbuf[0], scanner->next_char, &g_tokbuf[TOKN + 1]))
@@ -48,7 +79,9 @@ __CPROVER_ensures(scanner->line >= 1)
 ;
 static int parse_loop(struct scanner_s *scanner, cif_container_tp *container)
 __CPROVER_requires(scanner == g_scanner)
-__CPROVER_assigns(SC_FIELDS(scanner), __CPROVER_object_whole(g_tokbuf), g_store_calls)
+__CPROVER_assigns(SC_FIELDS(scanner), scanner->skip_depth, __CPROVER_object_whole(g_tokbuf), g_store_calls)
+__CPROVER_ensures(OLD(scanner->skip_depth) > 0 ==> scanner->skip_depth == OLD(scanner->skip_depth))
+__CPROVER_ensures(OLD(scanner->skip_depth) == 0 ==> (scanner->skip_depth == 0 || scanner->skip_depth == 1))
 __CPROVER_ensures((OLD(scanner->skip_depth) > 0 || container == NULL) ==> g_store_calls == OLD(g_store_calls))
 __CPROVER_ensures(__CPROVER_pointer_in_range_dfcc(&g_tokbuf[0], scanner->tvalue_start, &g_tokbuf[TOKN + 1]) && __CPROVER_pointer_in_range_dfcc(&g_tokbuf[0], scanner->text_start, &g_tokbuf[TOKN + 1])
         && __CPROVER_pointer_in_range_dfcc(&g_tokbuf[0], scanner->next_char, &g_tokbuf[TOKN + 1]))
@@ -56,7 +89,6 @@ __CPROVER_ensures(scanner->line >= 1)
 ;
 
 /* storage: never while skipping, never without a target container (C15: nothing of a bypassed entity is stored) */
-#define STORE_REQ(c) ((c) != NULL && !SKIPPING)
 int cif_container_create_frame(cif_container_tp *container, const UChar *code, cif_container_tp **frame)
 __CPROVER_requires(STORE_REQ(container) && __CPROVER_rw_ok(frame, sizeof(*frame)))
 __CPROVER_assigns(*frame, g_store_calls)
@@ -96,7 +128,7 @@ __CPROVER_ensures(RET == dst)
 static int parse_container(struct scanner_s *scanner, cif_container_tp *container, int is_block)
 __CPROVER_requires(scanner == g_scanner && __CPROVER_rw_ok(scanner, sizeof(*scanner)) && scanner->skip_depth >= 0 && scanner->skip_depth < 999995 && scanner->line >= 1)
 __CPROVER_requires(scanner->handler != NULL && __CPROVER_r_ok(scanner->handler, sizeof(cif_handler_tp)) && scanner->error_callback != NULL)
-__CPROVER_assigns(SC_FIELDS(scanner), scanner->skip_depth, __CPROVER_object_whole(g_tokbuf), g_store_calls)
+__CPROVER_assigns(SC_FIELDS(scanner), scanner->skip_depth, __CPROVER_object_whole(g_tokbuf), g_store_calls, g_item_cb_calls, g_item_cb_answer, g_value_frees)
 /* skip_depth accounting: a production entered while skipping leaves the depth as it found it, on every path; entered at depth 0 it
  * leaves 0, or 1 as the documented hand-off "skip my remaining siblings" to its caller */
 __CPROVER_ensures(OLD(scanner->skip_depth) > 0 ==> scanner->skip_depth == OLD(scanner->skip_depth))
@@ -108,5 +140,49 @@ __CPROVER_ensures(container == NULL ==> g_store_calls == OLD(g_store_calls))
 __CPROVER_ensures(__CPROVER_pointer_in_range_dfcc(&g_tokbuf[0], scanner->tvalue_start, &g_tokbuf[TOKN + 1]) && __CPROVER_pointer_in_range_dfcc(&g_tokbuf[0], scanner->text_start, &g_tokbuf[TOKN + 1])
         && __CPROVER_pointer_in_range_dfcc(&g_tokbuf[0], scanner->next_char, &g_tokbuf[TOKN + 1]))
 __CPROVER_ensures(scanner->line >= 1)
+;
+
+/* ---- loop bodies --------------------------------------------------------------------------------------------------------------- */
+unsigned g_packet_adds;
+int cif_packet_create(cif_packet_tp **packet, UChar **names)
+__CPROVER_requires(__CPROVER_rw_ok(packet, sizeof(*packet)))
+__CPROVER_assigns(*packet)
+__CPROVER_ensures(RET == CIF_OK ==> *packet != NULL)
+;
+int cif_packet_get_item(cif_packet_tp *packet, const UChar *name, cif_value_tp **value)
+__CPROVER_requires(packet != NULL && __CPROVER_rw_ok(value, sizeof(*value)))
+__CPROVER_assigns(*value)
+__CPROVER_ensures(RET == CIF_OK ==> *value != NULL)
+;
+void cif_packet_free(cif_packet_tp *packet)
+__CPROVER_requires(1)
+__CPROVER_assigns()
+__CPROVER_ensures(1)
+;
+int cif_value_init(cif_value_tp *value, cif_kind_tp kind)
+__CPROVER_requires(value != NULL)
+__CPROVER_assigns()
+__CPROVER_ensures(1)
+;
+/* storing a packet: never while skipping, and only after packet_end answered CONTINUE */
+int cif_loop_add_packet(cif_loop_tp *loop, cif_packet_tp *packet)
+__CPROVER_requires(loop != NULL && packet != NULL && !SKIPPING)
+__CPROVER_assigns(g_packet_adds)
+__CPROVER_ensures(g_packet_adds == OLD(g_packet_adds) + 1)
+;
+
+#define MAXCOL 2
+string_element_tp *g_names;     /* ghost: the header name list of the loop, laid out as an array linked in order (set by the harness) */
+static int parse_loop_packets(struct scanner_s *scanner, cif_loop_tp *loop, string_element_tp *first_name, UChar *names[], int column_count)
+__CPROVER_requires(scanner == g_scanner && __CPROVER_rw_ok(scanner, sizeof(*scanner)) && scanner->skip_depth >= 0 && scanner->skip_depth < 999990 && scanner->line >= 1)
+__CPROVER_requires(scanner->handler != NULL && __CPROVER_r_ok(scanner->handler, sizeof(cif_handler_tp)) && scanner->error_callback != NULL)
+__CPROVER_requires(column_count >= 1 && column_count <= MAXCOL && first_name == g_names && __CPROVER_r_ok(g_names, MAXCOL * sizeof(string_element_tp))
+        && __CPROVER_r_ok(names, (MAXCOL + 1) * sizeof(UChar *)))
+__CPROVER_requires(g_names[0].next == (column_count > 1 ? &g_names[1] : (string_element_tp *)0) && (column_count < 2 || g_names[1].next == (string_element_tp *)0))
+__CPROVER_assigns(SC_FIELDS(scanner), scanner->skip_depth, __CPROVER_object_whole(g_tokbuf), g_packet_adds, g_item_cb_calls, g_item_cb_answer, g_value_frees)
+/* skip-depth accounting of a loop body that ran to its end */
+__CPROVER_ensures((RET == CIF_OK && OLD(scanner->skip_depth) > 0) ==> (scanner->skip_depth == OLD(scanner->skip_depth) && g_packet_adds == OLD(g_packet_adds)))
+__CPROVER_ensures((RET == CIF_OK && OLD(scanner->skip_depth) == 0) ==> (scanner->skip_depth == 0 || scanner->skip_depth == 1))
+__CPROVER_ensures(loop == NULL ==> g_packet_adds == OLD(g_packet_adds))
 ;
 #endif
